@@ -663,7 +663,15 @@ func (c *Client) Start() (addr net.Addr, err error) {
 		cmd = exec.Command("")
 	}
 	if !c.config.SkipHostEnv {
-		cmd.Env = append(cmd.Env, os.Environ()...)
+		for _, e := range os.Environ() {
+			// If this process is itself a plugin, its environment carries the
+			// negotiation variables of its own host. Whether the child gets
+			// them is decided by this client's config below, not inherited.
+			if strings.HasPrefix(e, "PLUGIN_CLIENT_CERT=") || strings.HasPrefix(e, envMultiplexGRPC+"=") {
+				continue
+			}
+			cmd.Env = append(cmd.Env, e)
+		}
 	}
 	cmd.Env = append(cmd.Env, env...)
 	cmd.Stdin = os.Stdin
